@@ -1571,12 +1571,14 @@ pub fn main(args: &[String]) {
     let mut items = vec![];
     for (i, b) in behaviours.iter().enumerate() {
         let tr: Vec<Value> = b["hist"].as_array().map(|h| h.iter().flat_map(|r| r["obs"].as_array().cloned().unwrap_or_default()).collect()).unwrap_or_default();
-        let n = fanout_of(&tr, full);
+        // exhaustive variants (every truncation length, every bit) only where the behaviour asks for it
+        let full_here = full && b["fan"] == "full";
+        let n = fanout_of(&tr, full_here);
         if n == 1 {
             items.push((i, seed.wrapping_add(i as u64)));
         } else {
             for v in 0..n {
-                items.push((i, if full { v } else { seed.wrapping_mul(31).wrapping_add(i as u64 * 7 + v * 1009) }));
+                items.push((i, if full_here { v } else { seed.wrapping_mul(31).wrapping_add(i as u64 * 7 + v * 1009) }));
             }
         }
     }
